@@ -10,4 +10,8 @@ export PYTHONPATH="/repo:$HERE:$HERE/.deps"
 if ! "$PY" -c "import hypothesis" 2>/dev/null; then
   "$PY" -m pip install --no-index --find-links /opt/veriftools/wheels --target "$HERE/.deps" hypothesis || exit 1
 fi
+# optional: coverage-guided fuzzing for the thorough tier of C15 (skipped with a note when unavailable)
+if ! "$PY" -c "import atheris" 2>/dev/null; then
+  "$PY" -m pip install --no-index --find-links /opt/veriftools/wheels --target "$HERE/.deps" atheris >/dev/null 2>&1 || echo "note: atheris not installed (C15 thorough runs without the coverage-guided extra)"
+fi
 "$PY" -c "import coco, coco.b09.compiler, hypothesis, parsimonious, png, PIL; print('setup ok: coco at', coco.__file__, 'hypothesis', hypothesis.__version__)" || exit 1
